@@ -397,6 +397,11 @@ Definition reflect_step (SO : stf_oracle) (pre : wstate) (st : sstep) : list (N 
   | OpSeal a R hdr => if st_code st =? 0 then reflect_seal SO pre post a else []
   | OpNext hdr => reflect_next pre post
   | OpConfirm hh proof c => reflect_confirm SO pre hh proof c
+  | OpVotes e kvs tot =>
+    (* C13: a key's voting power is the sum of its registered stakes with start <= epoch < end, on the stake set
+       the implementation itself holds *)
+    flag 13 (forallb (fun '(k, v) => votes (s_stakes pre) e k =? v) kvs) 3
+    ++ flag 13 (total_votes (s_stakes pre) e =? tot) 4
   | _ => []
   end.
 
